@@ -742,3 +742,178 @@ Section Problem3.
     - rewrite Eso. eauto.
   Qed.
 End Problem3.
+
+(* ================= full totality of partition_problem ================= *)
+Definition span_step (ls : list label) (acc : list label) (q : nat) : list label :=
+  let l := nth q ls None in if existsb (label_beq l) acc then acc else acc ++ [l].
+
+Lemma span_labels_fold ls qs : span_labels ls qs = fold_left (span_step ls) qs [].
+Proof. reflexivity. Qed.
+
+Lemma span_fold_length ls : forall qs acc, length acc <= length (fold_left (span_step ls) qs acc).
+Proof.
+  induction qs as [|q r IH]; intros acc; simpl; [lia|]. unfold span_step at 2.
+  destruct (existsb _ acc); [apply IH|]. specialize (IH (acc ++ [nth q ls None])). rewrite app_length in IH. simpl in IH. lia.
+Qed.
+
+Lemma span_fold_single ls l0 : forall qs,
+  length (fold_left (span_step ls) qs [l0]) = 1 -> forall q, In q qs -> nth q ls None = l0.
+Proof.
+  induction qs as [|q r IH]; intros H x Hx; [destruct Hx|]. simpl in H. unfold span_step at 2 in H. simpl in H.
+  destruct (label_beq (nth q ls None) l0) eqn:E; simpl in H.
+  - apply okey_beq_eq in E. destruct Hx as [<-|Hx]; [exact E|]. now apply IH.
+  - exfalso. pose proof (span_fold_length ls r ([l0] ++ [nth q ls None])) as L. simpl in L. simpl in H. lia.
+Qed.
+
+Lemma span_one ls qs : length (span_labels ls qs) = 1 ->
+  forall q q', In q qs -> In q' qs -> nth q ls None = nth q' ls None.
+Proof.
+  rewrite span_labels_fold. destruct qs as [|q0 r]; [intros _ ? ? []|]. simpl. unfold span_step at 2. simpl.
+  intros H q q' Hq Hq'.
+  assert (A : forall x, In x (q0 :: r) -> nth x ls None = nth q0 ls None).
+  { intros x [<-|Hx]; [reflexivity|]. now apply (span_fold_single ls (nth q0 ls None) r H). }
+  now rewrite (A q Hq), (A q' Hq').
+Qed.
+
+Section Total.
+  Variable basis_of : op -> option (nat * qlabel).
+  Variable relabel : qlabel -> nat.
+  Variable dx : circ -> circ.
+  Hypothesis DX : dx_contract dx.
+
+  Lemma pcq_step_cases ls i i' : pcq_step basis_of ls i = Ok i' ->
+    (i' = i /\ (is_barrier i = true \/ length (iqs i) <= 1 \/ length (span_labels ls (iqs i)) = 1 \/ is_qpd2 i = true)) \/
+    (exists b lbl, i' = mkI (Qpd2 b None lbl) (iqs i) [] /\ length (iqs i) = 2).
+  Proof.
+    unfold pcq_step. destruct (is_barrier i) eqn:IB; [intros HH; inversion HH; subst; left; split; [reflexivity|tauto]|].
+    destruct (Nat.leb_spec (length (iqs i)) 1) as [L1|L1]; simpl;
+      [intros HH; inversion HH; subst; left; split; [reflexivity|tauto]|].
+    destruct (Nat.eqb_spec (length (span_labels ls (iqs i))) 1) as [S1|S1];
+      [intros HH; inversion HH; subst; left; split; [reflexivity|tauto]|].
+    destruct (Nat.ltb_spec 2 (length (iqs i))) as [L2|L2]; [discriminate|].
+    unfold is_qpd2. destruct (iop i) eqn:EO;
+      try (intros HH; inversion HH; subst; left; split; [reflexivity|tauto]);
+      (destruct (basis_of _) as [[bb ll]|] eqn:EB; [|discriminate]; intros HH; inversion HH; right; exists bb, ll;
+       split; [reflexivity|lia]).
+  Qed.
+
+  Lemma pcq_loop_steps ls : forall c qc, pcq_loop basis_of ls c = Ok qc ->
+    forall y, In y qc -> exists i, In i c /\ pcq_step basis_of ls i = Ok y.
+  Proof.
+    induction c as [|i r IH]; simpl; intros qc H y Hy; [inversion H; subst; destruct Hy|].
+    destruct (pcq_step basis_of ls i) as [i'| |] eqn:ES; try discriminate.
+    destruct (pcq_loop basis_of ls r) as [r'| |] eqn:ER; try discriminate. inversion H; subst.
+    destruct Hy as [<-|Hy]; [exists i; auto|]. destruct (IH r' eq_refl y Hy) as [j [Hj Ej]]. exists j. auto.
+  Qed.
+
+  Lemma number_In_inv : forall c i y, In y (fst (number_qpd relabel c i)) ->
+    exists y0 k, In y0 c /\ y = relabel_instr relabel k y0.
+  Proof.
+    induction c as [|x r IH]; intros i y H; [destruct H|]. rewrite number_cons in H.
+    destruct (is_qpd2 x) eqn:IQ; simpl in H; destruct H as [H|H].
+    - exists x, i. split; [now left|now symmetry].
+    - destruct (IH _ _ H) as [y0 [k [A B]]]. exists y0, k. split; [now right|exact B].
+    - exists x, 0. split; [now left|]. subst y. unfold relabel_instr, is_qpd2 in *. destruct (iop x); try reflexivity. discriminate.
+    - destruct (IH _ _ H) as [y0 [k [A B]]]. exists y0, k. split; [now right|exact B].
+  Qed.
+
+  Lemma relabel_instr_shape k y :
+    iqs (relabel_instr relabel k y) = iqs y /\ ics (relabel_instr relabel k y) = ics y /\
+    is_barrier (relabel_instr relabel k y) = is_barrier y /\ is_qpd2 (relabel_instr relabel k y) = is_qpd2 y.
+  Proof. unfold relabel_instr, is_barrier, is_qpd2. destruct (iop y) eqn:E; simpl; rewrite ?E; auto. Qed.
+
+  Lemma expand_In_inv c x : In x (expand_qpd2 c) ->
+    (In x c /\ ~ (is_qpd2 x = true /\ length (iqs x) = 2)) \/
+    (exists y a q, In y c /\ is_qpd2 y = true /\ iqs y = [a; q] /\ is_barrier x = false /\ ics x = [] /\ (iqs x = [a] \/ iqs x = [q])).
+  Proof.
+    unfold expand_qpd2. intros H. apply in_flat_map in H as [y [Hy H]]. unfold expand_instr in H.
+    destruct (iop y) eqn:EO; try (destruct H as [<-|[]]; left; split; [exact Hy|]; unfold is_qpd2; rewrite EO; intros [X _]; discriminate).
+    destruct (iqs y) as [|a [|q [|? ?]]] eqn:EQ;
+      try (destruct H as [<-|[]]; left; split; [exact Hy|]; rewrite EQ; simpl; intros [_ X]; discriminate).
+    right. exists y, a, q. unfold is_qpd2. rewrite EO. destruct H as [<-|[<-|[]]]; simpl; repeat split; auto.
+  Qed.
+
+  (* what the input must satisfy: every instruction acts on at least one qubit, all of them labelled, carries no clbit,
+     and a pre-placed placeholder acts on exactly two qubits *)
+  Definition input_ok (ls : list label) (c : circ) : Prop :=
+    forall i, In i c ->
+      iqs i <> [] /\ ics i = [] /\ (forall q, In q (iqs i) -> nth q ls None <> @None nat) /\
+      (is_qpd2 i = true -> length (iqs i) = 2).
+
+  Lemma needs_split_iqs a b : iqs a = iqs b -> is_barrier a = is_barrier b -> needs_split a = needs_split b.
+  Proof. unfold needs_split. intros -> ->. reflexivity. Qed.
+
+  Lemma labelled_some (ls : list (option nat)) q : nth q ls None <> None -> exists l, nth q ls None = Some l.
+  Proof. destruct (nth q ls None) as [l|]; [eauto|congruence]. Qed.
+
+  Lemma cut_circuit_valid ls c qc :
+    input_ok ls c -> pcq_loop basis_of ls c = Ok qc ->
+    let cut := dx (fst (number_qpd relabel qc 0)) in
+    no_empty_instr cut /\ valid_labelling ls cut /\ clbits_ok [] cut.
+  Proof.
+    intros IO EP. cbv zeta.
+    (* every instruction of the cut circuit: its qubits are qubits of an input instruction; shape facts *)
+    assert (KEY : forall x, In x (dx (fst (number_qpd relabel qc 0))) ->
+              iqs x <> [] /\ ics x = [] /\ (forall q, In q (iqs x) -> nth q ls None <> None) /\
+              (needs_split x = false -> forall q q', In q (iqs x) -> In q' (iqs x) -> nth q ls None = nth q' ls None)).
+    { intros x Hx. destruct (DX (fst (number_qpd relabel qc 0))) as [PM _].
+      apply (Permutation_in _ PM) in Hx.
+      assert (ORIG : forall y, In y (fst (number_qpd relabel qc 0)) ->
+                exists i, In i c /\ iqs y = iqs i /\
+                  ((ics y = ics i /\ is_barrier y = is_barrier i /\ is_qpd2 y = is_qpd2 i /\
+                    (is_barrier i = true \/ length (iqs i) <= 1 \/ length (span_labels ls (iqs i)) = 1 \/ is_qpd2 i = true)) \/
+                   (ics y = [] /\ is_barrier y = false /\ is_qpd2 y = true /\ length (iqs i) = 2))).
+      { intros y Hy. destruct (number_In_inv _ _ _ Hy) as [y0 [k [Hy0 ->]]].
+        destruct (relabel_instr_shape k y0) as [E1 [E2 [E3 E4]]].
+        destruct (pcq_loop_steps ls c qc EP y0 Hy0) as [i [Hi ES]]. exists i. split; [exact Hi|].
+        destruct (pcq_step_cases ls i y0 ES) as [[-> W]|[b [lbl [-> L2]]]].
+        - split; [exact E1|]. left. auto.
+        - split; [rewrite E1; reflexivity|]. right. rewrite E2, E3, E4. simpl. auto. }
+      destruct (expand_In_inv _ _ Hx) as [[Hin NQ]|[y [a [q [Hy [YQ [EQ [XB [XC XQ]]]]]]]]].
+      - destruct (ORIG x Hin) as [i [Hi [EI W]]]. destruct (IO i Hi) as [NE [IC [LAB Q2]]].
+        rewrite EI. split; [exact NE|].
+        destruct W as [[EC [EB [EQ2 W]]]|[EC [EB [EQ2 L2]]]].
+        + split; [rewrite EC; exact IC|]. split; [exact LAB|].
+          intros NS q q' Hq Hq'. rewrite (needs_split_iqs x i EI EB) in NS.
+          destruct W as [W|[W|[W|W]]].
+          * (* an unsplit barrier has one qubit *)
+            unfold needs_split in NS. rewrite W in NS. simpl in NS. rewrite orb_false_r in NS.
+            apply negb_false_iff in NS. apply Nat.eqb_eq in NS.
+            destruct (iqs i) as [|z [|? ?]]; try discriminate. destruct Hq as [<-|[]]. destruct Hq' as [<-|[]]. reflexivity.
+          * destruct (iqs i) as [|z [|? ?]]; simpl in W; try lia; [destruct Hq|].
+            destruct Hq as [<-|[]]. destruct Hq' as [<-|[]]. reflexivity.
+          * now apply (span_one ls (iqs i) W).
+          * exfalso. apply NQ. split; [rewrite EQ2; exact W|]. rewrite EI. apply Q2. exact W.
+        + exfalso. apply NQ. split; [exact EQ2|]. rewrite EI. exact L2.
+      - destruct (ORIG y Hy) as [i [Hi [EI _]]]. destruct (IO i Hi) as [_ [_ [LAB _]]].
+        rewrite EQ in EI.
+        split; [destruct XQ as [-> | ->]; discriminate|]. split; [exact XC|]. split.
+        + intros z Hz. apply LAB. rewrite <- EI. destruct XQ as [E|E]; rewrite E in Hz; destruct Hz as [<-|[]]; simpl; auto.
+        + intros _ z z' Hz Hz'. destruct XQ as [E|E]; rewrite E in Hz, Hz';
+            destruct Hz as [<-|[]]; destruct Hz' as [<-|[]]; reflexivity. }
+    split; [|split].
+    - intros x Hx. now destruct (KEY x Hx).
+    - intros x Hx. destruct (KEY x Hx) as [NE [_ [LAB SAME]]]. split.
+      + intros NS. destruct (iqs x) as [|q0 r] eqn:EQ; [congruence|].
+        destruct (labelled_some ls q0) as [l El]; [apply LAB; now left|].
+        exists l. split; [rewrite EQ; discriminate|]. intros q Hq. rewrite EQ in Hq.
+        rewrite (SAME NS q q0 Hq (or_introl eq_refl)). exact El.
+      + intros _ q Hq. apply labelled_some. now apply LAB.
+    - intros x k Hx Hk. destruct (KEY x Hx) as [_ [IC _]]. rewrite IC in Hk. destruct Hk.
+  Qed.
+
+  Theorem problem_total n c labels obs :
+    labels_ok n labels -> obs_sizes_ok n obs -> obs_phases_ok obs ->
+    let ls := labels_used n c labels in
+    input_ok ls c ->
+    (forall i, In i c -> ~ uncuttable basis_of ls i) ->
+    (forall ps p q, obs = Some ps -> In p ps -> q < n -> nth q ls None = None -> nth q (plets p) 0 = 0) ->
+    exists r, partition_problem basis_of relabel dx n 0 0 c labels obs = Ok r.
+  Proof.
+    intros LO SO PO ls IO NU ID.
+    assert (Ln : length ls = n).
+    { unfold ls, labels_used. destruct labels as [l0|]; [exact LO|apply auto_labels_length]. }
+    apply (problem_total_partial basis_of relabel dx n c labels obs LO SO PO Ln NU); [|exact ID].
+    intros qc EP. exact (cut_circuit_valid ls c qc IO EP).
+  Qed.
+End Total.
